@@ -10,7 +10,7 @@ import ast
 from ..core import Undecided, AnalysisError
 from ..forks import Fork
 from ..ratfun import Rat, satom
-from ..symex import PyRaise, to_rat
+from ..symex import PyRaise, Inst, to_rat
 from ..namodel import NA
 from ..spacemodel import NotAnElement
 from ..spacemodel import (SMInterp, NSpace, NPSpace, NField, NElem, NPElem,
@@ -119,23 +119,52 @@ def evaluate(model, Hcls, Icls, build, entries):
     return probs, len(want)
 
 
+SCOPE_FILES = ('odl/operator/default_ops.py', 'odl/operator/pspace_ops.py',
+               'odl/operator/operator.py',
+               'odl/solvers/nonsmooth/proximal_operators.py',
+               'odl/solvers/functional/default_functionals.py',
+               'odl/solvers/functional/functional.py')
+
+
+def expected_safe(I, op):
+    """Is `op(x, out=x)` promised to work?  Decided from the structure of
+    the operator expression (the temporaries the expression classes keep,
+    C10 anchors):  a composition and the right scalar / vector multiples
+    evaluate the inner operator into a temporary, so they are alias-safe
+    whatever their parts are; a sum writes its left summand to a temporary
+    and calls the right one with the caller's `out`, a left scalar / vector
+    multiple calls its operand with the caller's `out` - these are as safe
+    as that operand.  Leaves: the classes of the files in scope (proximals,
+    default and product-space operators); discretisation operators (finite
+    differences, sampling, matrix operators), which no solver applies with
+    `out` aliased to the input, are not."""
+    if not isinstance(op, Inst):
+        return False
+    cn = op.ci.name
+    if cn in ('OperatorComp', 'OperatorRightScalarMult',
+              'OperatorRightVectorMult'):
+        return True
+    if cn == 'OperatorSum':
+        return expected_safe(I, I.getattr_value(op, 'right'))
+    if cn in ('OperatorLeftScalarMult', 'OperatorLeftVectorMult'):
+        return expected_safe(I, I.getattr_value(op, 'operator'))
+    return op.ci.rel in SCOPE_FILES
+
+
 def run(rep, model):
     n = 0
     for kind, name, Hcls, Icls, b, entries in _instances(model):
         rel, line = _where(model, name.replace('expr:', ''))
         cons = '%s:%s' % (kind, name)
-        # scope of the property: proximals, the default / product-space
-        # operators and arithmetic on them (not discretisation operators,
-        # which no solver applies with out aliased to the input)
-        if kind != 'proximal' and not name.startswith('expr:') and rel not \
-                in ('odl/operator/default_ops.py',
-                    'odl/operator/pspace_ops.py',
-                    'odl/operator/operator.py'):
-            continue
-        if name.startswith('expr:') and any(k in name for k in (
-                'PartialDerivative', 'Laplacian', 'Gradient', 'Divergence',
-                'Flattening', 'Sampling', 'MatrixOperator')):
-            continue
+        if kind != 'proximal':
+            # scope of the property, from the structure of the expression
+            try:
+                Hs = Hcls()
+                Is = Icls(model, {}, Hs)
+                if not expected_safe(Is, b(Is)):
+                    continue
+            except (Undecided, Fork, PyRaise, NotAnElement):
+                continue
         try:
             r = evaluate(model, Hcls, Icls, b, entries)
         except (Undecided, Fork) as e:
